@@ -370,6 +370,20 @@ def replay_chunk(cases, extra):
     setup_repo_path()
     import io
     out = []
+    import os, shutil, tempfile, warnings
     for idx, rec in cases:
+        if rec["file"].get("tracer") == "coverage":
+            # coverage.py writes its data file into the working directory: every behaviour gets a directory of its own
+            # (shards run side by side), removed afterwards
+            here, tmp = os.getcwd(), tempfile.mkdtemp(prefix="vcov")
+            os.chdir(tmp)
+            try:
+                with warnings.catch_warnings():
+                    warnings.simplefilter("ignore")
+                    out.extend(replay_one(rec))
+            finally:
+                os.chdir(here)
+                shutil.rmtree(tmp, ignore_errors=True)
+            continue
         out.extend(replay_one(rec))
     return out
